@@ -51,7 +51,8 @@ OBLIGATIONS.append(_o('C04.extclass', NU + 'c04_extclass', 'the real has_extensi
 OBLIGATIONS.append(_o('C04.hidden', NU + 'c04_hidden', 'the real is_hidden (unix, not in an archive): true exactly when the name starts with a dot, for every 2-character printable ASCII name', complete=False, bound='name of 2 ASCII characters', units=('nameutils',)))
 OBLIGATIONS.append(_o('C04.linecount', 'verif_frag::linecount::c17_linecount', 'the WHOLE real util::get_line_count (verbatim on a scripted file of up to three chunks): a readable file has exactly the number of newline bytes of all its chunks, a file that cannot be opened or read to its end has no count (same harness as C17.linecount)', engine='F', complete=False, bound='files of <= 3 chunks of 1..3 symbolic bytes', units=('linecount',)))
 OBLIGATIONS.append(_o('C04.shebang', 'verif_frag::linecount::c17_shebang', 'the WHOLE real util::is_shebang (verbatim on the same scripted file): true exactly when the first two bytes can be read and are `#!` (same harness as C17.shebang)', engine='F', complete=False, bound='files of <= 3 chunks of 1..3 symbolic bytes', units=('linecount',)))
-CANARIES = [dict(harness=M + 'canary_mode_must_fail', units=['mode']), dict(harness=CK + 'canary_caps_must_fail', units=['caps']), dict(harness=NU + 'canary_names_must_fail', units=['nameutils']), dict(harness='verif_frag::linecount::canary_linecount_must_fail', units=['linecount'])]
+OBLIGATIONS.append(_o('C04.cache.clear', 'searcher::verif_kani_fms::c17_fms_clear', 'contract of the real FileMetadataState::clear (per-entry cache reset at the top of check_file): for every combination of the six already-looked-up flags nothing counts as looked up and nothing is cached afterwards - a column value is never the previous entry value (same harness as C17.cache.clear)', units=('fms',)))
+CANARIES = [dict(harness=M + 'canary_mode_must_fail', units=['mode']), dict(harness=CK + 'canary_caps_must_fail', units=['caps']), dict(harness=NU + 'canary_names_must_fail', units=['nameutils']), dict(harness='verif_frag::linecount::canary_linecount_must_fail', units=['linecount']), dict(harness='searcher::verif_kani_fms::canary_fms_must_fail', units=['fms'])]
 
 ASSUMPTIONS = [
     'st_mode delivered by lstat / stored in the zip entry is the value passed to the predicates (T4); in the wrapper '
